@@ -407,6 +407,9 @@ def monitor_request(o):
                   "another session's" if any(a == hdr for (a, al, _) in sess.values()) else "wrong"
             return ("session-route-handled-without-secret", "%s %s handled (status %d, %s) with %s X-Session-Auth" % (o["m"], path, status, effects or "no visible effect", why))
         if cls != "handled":
+            if cls == "notyet" and status == 404:
+                # clients classify by status: any 404 means "session gone" (D22); "not yet seen" must be a 5xx on every route
+                return ("not-yet-seen-answered-404", "%s %s: 'Session not yet seen' answered with status 404" % (o["m"], path))
             if status not in (404, 500) or cls not in ERR_CLASSES:
                 return ("refusal-shape", "%s %s refused with unexpected status/class %d %s" % (o["m"], path, status, cls))
             if effects:
